@@ -129,7 +129,18 @@ func rawRequest(method, target string) string {
 
 // parse builds the request exactly as net/http's server would from the wire text.
 func parse(raw string) (*http.Request, error) {
-	return http.ReadRequest(bufio.NewReader(strings.NewReader(raw)))
+	return http.ReadRequest(bufio.NewReaderSize(strings.NewReader(raw), 512))
+}
+
+// wire is a reusable connection-side reader (one per worker): net/http's server also reads
+// every request of a connection through one bufio.Reader.
+type wire struct{ br *bufio.Reader }
+
+func newWire() *wire { return &wire{br: bufio.NewReaderSize(strings.NewReader(""), 512)} }
+
+func (w *wire) parse(raw string) (*http.Request, error) {
+	w.br.Reset(strings.NewReader(raw))
+	return http.ReadRequest(w.br)
 }
 
 // serve runs one request through the real handler chain and returns what was observed.
